@@ -3,7 +3,7 @@
 
 use crate::case::{Profile, NKINDS};
 use crate::mon::*;
-use crate::world::{CaseStats, HOLD_F1};
+use crate::world::CaseStats;
 
 pub struct Spec {
     pub id: &'static str,
@@ -64,7 +64,7 @@ pub fn spec_for(id: &str) -> Option<Spec> {
             id: "C01",
             profile: base("safety", W_SAFETY),
             monitors: P01,
-            options: HOLD_F1,
+            options: 0,
             rule: "non-trivial = >=2 nodes committed >=3 entries each AND at least one of {leader change after a commit, log truncation, crash that lost un-fsynced data, snapshot installed, config change applied}; distinct = distinct raw case bytes",
             nontrivial: |_s, f| {
                 has(f, F_TWO_NODES_3_COMMITS)
@@ -80,7 +80,7 @@ pub fn spec_for(id: &str) -> Option<Spec> {
             id: "C02",
             profile: base("election", W_ELECTION),
             monitors: P02,
-            options: HOLD_F1,
+            options: 0,
             rule: "non-trivial = >=2 distinct (term, leader) pairs AND (a voter crashed with an un-fsynced term/vote, or vote traffic was duplicated / delivered to a later incarnation, or a config change was applied)",
             nontrivial: |_s, f| has(f, F_TWO_LEADERS) && has(f, F_VOTE_UNSYNCED_CRASH | F_VOTE_DUP_OR_LATE | F_CONF_APPLIED),
             quick_cases: 24000,
@@ -93,7 +93,7 @@ pub fn spec_for(id: &str) -> Option<Spec> {
             id: "C03",
             profile: base("election", W_ELECTION),
             monitors: P03,
-            options: HOLD_F1,
+            options: 0,
             rule: "non-trivial = a leader of term T observed while an entry committed in an earlier term exists and another node's log differs from the leader's, or a (pre-)vote request was decided while voter and candidate logs differed",
             nontrivial: |_s, f| has(f, F_LEADER_WITH_DIVERGENT_PEER | F_VOTE_DECIDED_VS_BETTER_LOG),
             quick_cases: 24000,
@@ -109,7 +109,7 @@ pub fn spec_for(id: &str) -> Option<Spec> {
                 id: "C04",
                 profile: p,
                 monitors: P04,
-                options: HOLD_F1,
+                options: 0,
                 rule: "non-trivial = a leader commit advance at which the leader's own disk did not hold the index, or some voter's volatile log held it but its disk did not, or the configuration was joint",
                 nontrivial: |_s, f| has(f, F_COMMIT_LEADER_DISK_BEHIND | F_COMMIT_VOTER_VOLATILE_ONLY | F_COMMIT_JOINT),
                 quick_cases: 24000,
@@ -123,7 +123,7 @@ pub fn spec_for(id: &str) -> Option<Spec> {
             id: "C05",
             profile: base("safety", W_SAFETY),
             monitors: P05,
-            options: HOLD_F1,
+            options: 0,
             rule: "non-trivial = a truncating append occurred, or a leader crashed holding entries it had not persisted, or an append was split by max_size_per_msg",
             nontrivial: |_s, f| has(f, F_TRUNCATION | F_LEADER_CRASH_UNPERSISTED_SENT | F_SPLIT_APPEND),
             quick_cases: 24000,
@@ -157,7 +157,7 @@ pub fn spec_for(id: &str) -> Option<Spec> {
                 id: "C07",
                 profile: p,
                 monitors: P07,
-                options: HOLD_F1,
+                options: 0,
                 rule: "non-trivial = >=3 Readies on one node AND (>=2 un-fsynced Readies outstanding at once, or a truncation between two Readies, or a snapshot Ready, or pagination split a batch, or a restart with handed-out entries pending)",
                 nontrivial: |_s, f| {
                     has(f, F_THREE_READIES)
@@ -179,7 +179,7 @@ pub fn spec_for(id: &str) -> Option<Spec> {
                 id: "C08",
                 profile: p,
                 monitors: P08,
-                options: HOLD_F1,
+                options: 0,
                 rule: "non-trivial = a read state was returned in a case where, between issue and answer, a leader change or a partition occurred, or the read was forwarded, or a heartbeat response was duplicated",
                 nontrivial: |_s, f| has(f, F_READ_ANSWERED_NONTRIVIAL),
                 quick_cases: 72000,
@@ -193,7 +193,7 @@ pub fn spec_for(id: &str) -> Option<Spec> {
             id: "C09",
             profile: base("membership", W_MEMBERSHIP),
             monitors: P09,
-            options: HOLD_F1,
+            options: 0,
             rule: "non-trivial = >=2 membership proposals of which >=1 arrived while another was unapplied or while joint and >=1 was applied on >=2 nodes; or a restart/snapshot restored a joint configuration",
             nontrivial: |_s, f| (has(f, F_CONF_WHILE_PENDING) && has(f, F_CONF_APPLIED_TWO_NODES)) || has(f, F_JOINT_RESTORED),
             quick_cases: 24000,
@@ -211,7 +211,7 @@ pub fn spec_for(id: &str) -> Option<Spec> {
                 id: "C13",
                 profile: p,
                 monitors: P13,
-                options: HOLD_F1,
+                options: 0,
                 rule: "non-trivial = an inflight window became full, or a capacity change hit a non-empty window, or a rejection moved next_idx, or an append was split by size, or a proposal was refused for size",
                 nontrivial: |_s, f| has(f, F_WINDOW_FULL | F_CAP_CHANGE_NONEMPTY | F_REJECT_MOVED_NEXT | F_SPLIT_APPEND | F_REFUSED_FOR_SIZE),
                 quick_cases: 24000,
@@ -228,7 +228,7 @@ pub fn spec_for(id: &str) -> Option<Spec> {
                 id: "C15",
                 profile: p,
                 monitors: P15 | P01 | P02 | P05,
-                options: HOLD_F1,
+                options: 0,
                 rule: "non-trivial = a snapshot was installed, ignored as stale or fast-forwarded in a case that also has a later append to that follower",
                 nontrivial: |_s, f| has(f, F_SNAP_THEN_APPEND) || (has(f, F_SNAP_IGNORED_OR_FF) && has(f, F_SNAP_INSTALLED)),
                 quick_cases: 24000,
@@ -246,7 +246,7 @@ pub fn spec_for(id: &str) -> Option<Spec> {
                 id: "C16",
                 profile: p,
                 monitors: P16,
-                options: HOLD_F1,
+                options: 0,
                 rule: "non-trivial = pre-vote requests were delivered to nodes in >=2 different roles, or (lockstep scenario) minority nodes reached PreCandidate >=2 times and a (pre-)vote request reached a majority member",
                 nontrivial: |_s, f| has(f, F_PREVOTE_NONTRIVIAL),
                 quick_cases: 24000,
@@ -264,7 +264,7 @@ pub fn spec_for(id: &str) -> Option<Spec> {
                 id: "C17",
                 profile: p,
                 monitors: P17,
-                options: HOLD_F1,
+                options: 0,
                 rule: "non-trivial = a transfer was issued to a lagging target, or aborted by timeout, or competing requests arrived, or it was forwarded through a follower",
                 nontrivial: |_s, f| has(f, F_TRANSFER_NONTRIVIAL),
                 quick_cases: 24000,
@@ -300,7 +300,7 @@ pub fn spec_for(id: &str) -> Option<Spec> {
                 id: "C10",
                 profile: p,
                 monitors: P10,
-                options: HOLD_F1 | crate::world::EXCLUDE_F8,
+                options: crate::world::EXCLUDE_F8,
                 rule: "non-trivial = the fault prefix left >=1 of {follower in Snapshot state, full inflight window, paused probe, pending transfer, unapplied or joint config, >=2 nodes needing restart, divergent uncommitted tails}",
                 nontrivial: |_s, f| has(f, F_LIVENESS_NONTRIVIAL),
                 quick_cases: 40000,
